@@ -200,7 +200,7 @@ func (e *evWorld) trackBatch(sn gocql.VerifEvSnap, b []evEvent, statusDisabled b
 	last := map[int]byte{}
 	var order []int
 	for _, ev := range b {
-		if ev.kind == 't' {
+		if isTopo(ev.kind) {
 			continue
 		}
 		if _, ok := last[ev.addr]; !ok {
@@ -528,6 +528,10 @@ type evEvent struct {
 	addr int
 }
 
+// isTopo: a TOPOLOGY_CHANGE event: 't' (NEW_NODE for an address nobody else names), or 'n' / 'r' / 'm' = NEW_NODE /
+// REMOVED_NODE / MOVED_NODE for the given address (the address may also have status events in the same batch)
+func isTopo(k byte) bool { return k == 't' || k == 'n' || k == 'r' || k == 'm' }
+
 func parseEvBatch(s string) []evEvent {
 	var out []evEvent
 	if s == "-" {
@@ -564,6 +568,12 @@ func toNodeEvents(b []evEvent) []gocql.VerifNodeEvent {
 		switch e.kind {
 		case 't':
 			evs = append(evs, gocql.VerifNodeEvent{Kind: "topology", Change: "NEW_NODE", Host: evIP(77), Port: 9042})
+		case 'n':
+			evs = append(evs, gocql.VerifNodeEvent{Kind: "topology", Change: "NEW_NODE", Host: evIP(e.addr), Port: 9042})
+		case 'r':
+			evs = append(evs, gocql.VerifNodeEvent{Kind: "topology", Change: "REMOVED_NODE", Host: evIP(e.addr), Port: 9042})
+		case 'm':
+			evs = append(evs, gocql.VerifNodeEvent{Kind: "topology", Change: "MOVED_NODE", Host: evIP(e.addr), Port: 9042})
 		case 'u':
 			evs = append(evs, gocql.VerifNodeEvent{Kind: "status", Change: "UP", Host: evIP(e.addr), Port: 9042})
 		case 'd':
@@ -921,6 +931,22 @@ func (g *evGen) batch(known, other []int) []evEvent {
 		}
 		b = append(b, evEvent{k, a})
 	}
+	// the MIXED family: a topology event (NEW_NODE / REMOVED_NODE / MOVED_NODE) for an address that also has status events
+	// in this batch, before, between or after them — the refresh it asks for reconciles membership and addresses, the
+	// node's up / down state is decided by the last status event all the same
+	if r.Intn(5) < 2 {
+		var sa []int
+		for _, ev := range b {
+			if !isTopo(ev.kind) {
+				sa = append(sa, ev.addr)
+			}
+		}
+		for k := 1 + r.Intn(2); k > 0 && len(sa) > 0; k-- {
+			t := evEvent{[]byte{'n', 'r', 'm'}[r.Intn(3)], sa[r.Intn(len(sa))]}
+			i := r.Intn(len(b) + 1)
+			b = append(b[:i], append([]evEvent{t}, b[i:]...)...)
+		}
+	}
 	return b
 }
 
@@ -932,16 +958,29 @@ func (g *evGen) batchOp(b []evEvent) (string, string) {
 	kinds := map[byte]bool{}
 	conflict := false
 	last := map[int]byte{}
+	topoAddr := map[int]byte{}
 	for _, ev := range b {
 		kinds[ev.kind] = true
-		if ev.kind != 't' {
+		if !isTopo(ev.kind) {
 			if k, ok := last[ev.addr]; ok && k != ev.kind {
 				conflict = true
 			}
 			last[ev.addr] = ev.kind
+		} else if ev.kind != 't' {
+			topoAddr[ev.addr] = ev.kind
 		}
 	}
-	cls := "batch"
+	mixed := ""
+	for a, tk := range topoAddr {
+		if sk, ok := last[a]; ok { // the SAME address has a topology event and status events in this batch
+			m := fmt.Sprintf("/MIXED-%s+last-status-%s", map[byte]string{'n': "NEW_NODE", 'r': "REMOVED_NODE", 'm': "MOVED_NODE"}[tk],
+				map[byte]string{'u': "UP", 'd': "DOWN", 'x': "other"}[sk])
+			if mixed == "" || m < mixed {
+				mixed = m
+			}
+		}
+	}
+	cls := "batch" + mixed
 	if conflict {
 		cls += "/conflicting-status-for-one-address"
 	} else if len(b) > len(last)+1 {
@@ -980,7 +1019,7 @@ func batchGuard(sn gocql.VerifEvSnap, b []evEvent) string {
 	seen := map[string]string{}
 	done := map[int]bool{}
 	for _, ev := range b {
-		if ev.kind == 't' || done[ev.addr] {
+		if isTopo(ev.kind) || done[ev.addr] {
 			continue
 		}
 		done[ev.addr] = true
